@@ -4,7 +4,7 @@
     of a config list; [push_ok n es t L false] says: type [t] not yet present and an entry
     of L value bytes still fits. *)
 From SplVerif Require Import Lib.Base Tlv.Model Tlv.Spec Tlv.Ops Tlv.Corollaries.
-From SplVerif Require Import ListView.Model Resolution.Account MetaList.Model MetaList.Proofs MetaList.Stored MetaList.Many.
+From SplVerif Require Import ListView.Model Resolution.Account MetaList.Model MetaList.Proofs MetaList.Stored MetaList.Many MetaList.Others.
 Local Open Scope N_scope.
 
 Theorem C12_size_formula : forall k, 35 * k + 4 < USIZE_LIMIT -> ml_size_of k = Ok (12 + (4 + 35 * k)).
@@ -113,3 +113,20 @@ Example C12_many_nonvacuous :
   ml_reload (fst (init_all (zeros 67) [(t1, [m]); (t2, [])])) t1 = Ok [m] /\
   is_err (snd (init_all (zeros 66) [(t1, [m]); (t2, [])])) = true.
 Proof. cbv zeta. repeat split; vm_compute; reflexivity. Qed.
+
+(** end to end, for the instructions that were NOT touched: after an update (successful or refused)
+    of instruction t's list, and after an init of a new instruction's list, every other instruction
+    still reads back exactly the list it had *)
+Theorem C12_update_keeps_other_lists : forall n es t a v b ms t' a' ms' b',
+  fits n es -> wf_tag t -> Forall wf_extra ms -> len ms < 100000000 ->
+  split_entry es t 0 = Some (a, v, b) ->
+  t' <> t -> wf_tag t' -> Forall wf_extra ms' -> len ms' < 4294967296 ->
+  split_entry es t' 0 = Some (a', lv_enc ms', b') ->
+  ml_reload (fst (ml_update (render n es) t ms)) t' = Ok ms'.
+Proof. exact update_keeps_other_lists. Qed.
+Theorem C12_init_keeps_other_lists : forall n es t ms t' a' ms' b',
+  fits n es -> wf_tag t -> Forall wf_extra ms -> len ms < 100000000 ->
+  wf_tag t' -> Forall wf_extra ms' -> len ms' < 4294967296 ->
+  split_entry es t' 0 = Some (a', lv_enc ms', b') ->
+  ml_reload (fst (ml_init (render n es) t ms)) t' = Ok ms'.
+Proof. exact init_keeps_other_lists. Qed.
